@@ -49,7 +49,7 @@ pub fn base_history(r: &mut Sm, idx: usize) -> History {
     if planner != PKind::Prm {
         params.goal_bias = *r.pick(&[0.05, 0.2, 0.5]);
     }
-    History { problems: vec![p1, p2], params, prm_samples: 5 + r.below(60) as u64, ops: vec![], uniform_fail_at: None, starts_override: None }
+    History { problems: vec![p1, p2], params, prm_samples: 5 + r.below(60) as u64, ops: vec![], uniform_fail_at: None, starts_override: None, script: None }
 }
 
 pub fn op_alphabet(kind: PKind, r: &mut Sm) -> Vec<Op> {
